@@ -28,7 +28,7 @@ checks = {
  "C07": ("exploration", "6/C07",
          "Seeded simulation in which the injected backend fault is the input: a scripted backend fails the carrier method (each of the 17 Interface entry points, GET-, HEAD-, PUT-, POST-, DELETE- and list-based) with a generated error (15 standard values, custom codes, fmt %w wrapping on either side, HTTP-status wrappers 400..599, messages beginning with code/status prefixes, JSON details), observed through 1, 2 and 3 client->server hops over the simulated network. Oracle: errors.Is against all 15 standard values unchanged (status class for HEAD carriers), status = table or own status, code and detail preserved, Error() text identical after 1, 2 and 3 hops.",
          "deterministic simulation with backend error injection through 1-3 simulated proxy hops; identity/status/detail/fixed-point oracles; choice-trace replay and minimisation"),
- "C18": ("fault_enumeration", "6/C18",
+ "C18": ("exploration", "6/C18",
          "Seeded simulation of every client operation (18 Interface methods, BlobWriter write/close/commit sequences, both resume modes) against a scripted adversarial peer on the simulated network: a finite script of responses sampled from {status classes incl. redirects and out-of-range codes} x {Location, Range, Content-Range, Docker-Content-Digest, Link, Content-Type, OCI-Chunk-Min-Length, Www-Authenticate each absent / empty / malformed / contradictory / huge} x {body empty / error JSON / right-shaped / wrong-shaped / truncated / garbage / oversized} x {framing: exact, chunked, short, cut, huge Content-Length}, with ListPageSize in {-1,0,1,2,5}; when the script runs out the network fails. Oracle: the operation returns (no panic) and issues no more requests than the script can answer plus one.",
          "deterministic simulation with response fault injection from a scripted adversarial peer; no-panic and bounded-progress oracles; choice-trace replay and minimisation"),
  "C08": ("exploration", "4.3, 4.8, 6/C08",
